@@ -34,6 +34,10 @@ pub enum Source {
     /// a movie whose first chunk offset / a sample size of one track is patched so that some
     /// samples lie beyond the end of the file (their reads fail at the I/O level, after the seek)
     Patched(Movie, u16, bool),
+    /// a movie whose tables disagree: the last run of one track's stts covers fewer samples than
+    /// stsz announces, so that late samples have an offset, a size and data but no decode time
+    /// (their reads fail after the data was fetched)
+    ShortStts(Movie, u16),
     Movie(Movie),
     Mux(MuxCase),
     Canned(String),
@@ -76,6 +80,23 @@ fn bytes_of(src: &Source) -> Option<Vec<u8>> {
                 let v = if *offset_kind { bytes.len() as u64 - 1 } else { 0x00ff_ffff };
                 if crate::adv::read_field(&bytes, f) != 0 || *offset_kind {
                     crate::adv::write_field(&mut bytes, f, v);
+                }
+            }
+            Some(bytes)
+        }
+        Source::ShortStts(m, which) => {
+            let mut bytes = build(m).bytes;
+            let hits: Vec<usize> = bytes.windows(4).enumerate().filter(|(_, w)| *w == b"stts").map(|(i, _)| i).collect();
+            if !hits.is_empty() {
+                let p = hits[(*which as usize * hits.len()) >> 16];
+                if p + 12 <= bytes.len() {
+                    let n = u32::from_be_bytes(bytes[p + 8..p + 12].try_into().unwrap()) as usize;
+                    let at = p + 12 + 8 * n.saturating_sub(1);
+                    if n >= 1 && n < 100_000 && at + 4 <= bytes.len() {
+                        let c = u32::from_be_bytes(bytes[at..at + 4].try_into().unwrap());
+                        let less = c.saturating_sub(1 + *which as u32 % 3);
+                        bytes[at..at + 4].copy_from_slice(&less.to_be_bytes());
+                    }
                 }
             }
             Some(bytes)
@@ -295,12 +316,13 @@ fn oracle_inner(ctx: &mut Ctx, case: &Case) -> Check {
             h.write_u64(c.kind as u64 | (c.track as u64) << 8 | (c.id as u64) << 40);
         }
         ctx.nontrivial(h.finish());
-        ctx.sample("nontrivial", &serde_json::json!({"source": match &case.source { Source::InitSeg(..) => "media segment against its init segment", Source::Patched(..) => "movie with samples beyond the end of the file", Source::Movie(_) => "reference-encoded movie", Source::Mux(_) => "muxer output", Source::Canned(n) => n.as_str() }, "file_len": bytes.len(), "calls": calls.iter().take(12).collect::<Vec<_>>(), "n_calls": calls.len()}));
+        ctx.sample("nontrivial", &serde_json::json!({"source": match &case.source { Source::InitSeg(..) => "media segment against its init segment", Source::Patched(..) => "movie with samples beyond the end of the file", Source::ShortStts(..) => "movie whose stts covers fewer samples than stsz", Source::Movie(_) => "reference-encoded movie", Source::Mux(_) => "muxer output", Source::Canned(n) => n.as_str() }, "file_len": bytes.len(), "calls": calls.iter().take(12).collect::<Vec<_>>(), "n_calls": calls.len()}));
     }
     ctx.count(match &case.source {
         Source::InitSeg(_, false) => "source:init+segment",
         Source::InitSeg(_, true) => "source:init+segment-with-undeclared-track-id",
         Source::Patched(..) => "source:movie-with-unreadable-samples",
+        Source::ShortStts(..) => "source:movie-whose-stts-covers-fewer-samples-than-stsz",
         Source::Movie(m) if !m.frags.is_empty() => "source:fragmented-movie",
         Source::Movie(_) => "source:table-movie",
         Source::Mux(_) => "source:muxer-output",
@@ -319,6 +341,7 @@ pub fn case_strategy(max_calls: usize) -> impl Strategy<Value = Case> {
     let source = prop_oneof![
         4 => gen::table_movie(3, 24).prop_map(Source::Movie),
         3 => (gen::table_movie(2, 10), any::<u16>(), any::<bool>()).prop_map(|(m, w, k)| Source::Patched(m, w, k)),
+        2 => (gen::table_movie(2, 10), any::<u16>()).prop_map(|(m, w)| Source::ShortStts(m, w)),
         3 => gen::frag_movie(3, 4, 5).prop_map(Source::Movie),
         2 => (gen::frag_movie(3, 3, 4), prop::bool::weighted(0.4)).prop_map(|(m, u)| Source::InitSeg(m, u)),
         3 => mux::mux_history(3, 24, 0.0).prop_map(Source::Mux),
